@@ -148,7 +148,7 @@ Proof.
     + unfold chars_left, first_pos. rewrite D1, EP1. exact NS.
   - assert (ab_plan (e_planned e1)) as AB1 by (rewrite EP in AB; rewrite EP1; inversion AB; assumption).
     assert (ab_mode m0) as ABM by (rewrite EP in AB; inversion AB; assumption).
-    destruct R01 as (R1 & R2 & R3 & R4).
+    destruct R01 as (R1 & R2 & R3 & R4 & R5).
     destruct SWC as [(-> & EQ & NM1)|(-> & NE & NM1)].
     + (* the planned mode is ASCII again: go on with the next planned position *)
       apply (ITEM e1 D1 S1); [rewrite EM, EQ; exact EA|exact AB1|exact PL1| |].
@@ -282,7 +282,7 @@ Proof.
       assert (ab_mode m0) as ABM by (rewrite EP1 in EP; rewrite EP in AB; inversion AB; assumption).
       destruct ABM as [MA|MB]; [|contradiction]. rewrite MA in *.
       destruct SWC as [(-> & EQ & _)|(-> & NE & NM2)]; [rewrite EB1 in EQ; discriminate|].
-      destruct R01 as (R1 & R2 & R3 & R4).
+      destruct R01 as (R1 & R2 & R3 & R4 & R5).
       apply (FIN e2 C2 D2 S2).
       * left. rewrite LR. rewrite CL1 in CL. rewrite EP1 in EP. unfold first_pos in B2. rewrite EP in B2. cbn [hd fst] in B2. specialize (B2 POS). cbn [length] in *. lia.
       * right. split; [exact EM|]. split; [rewrite NM2; cbn [et_latch_from_ascii]; exact NM1|]. split; [exact PL2|].
